@@ -32,6 +32,7 @@ func (e *Engine) VerifyFunc(fn *ssa.Function, ct *FuncContract) (obls []*Obligat
 	fr := c.newFrame(fn, nil)
 	fr.top = true
 	c.me = c.declare("me", SRef)
+	c.packageAxioms(fnPkgPath(fn))
 	var args []Val
 	for i, p := range fn.Params {
 		v := c.freshVal("p!"+p.Name(), p.Type())
@@ -189,4 +190,18 @@ func (e *Engine) VerifyLemma(lm *Lemma) (obls []*Obligation, err error) {
 	sb.WriteString("(assert (not " + g.S + "))\n(check-sat)\n")
 	o := &Obligation{Name: shortPkg(lm.Pkg) + ".lemma." + lm.Name, Props: lm.Props, Kind: "lemma", Func: "lemma " + lm.Name, SMT: sb.String(), Desc: lm.C.Src}
 	return []*Obligation{o}, nil
+}
+
+// packageAxioms adds the package's declared axioms (definitional axioms of uninterpreted spec functions).
+func (c *VCtx) packageAxioms(pkg string) {
+	ps := c.eng.Specs[pkg]
+	if ps == nil {
+		return
+	}
+	for _, ax := range ps.Axioms {
+		sc := &Scope{c: c, vars: map[string]Val{}, pkg: pkg, st: &State{pc: True, heaps: map[string]*Term{}, held: map[string]*heldLock{}}}
+		sc.old = sc.st
+		c.fact(c.translateBool(sc, ax.C.E))
+		c.eng.assume("axiom " + shortPkg(pkg) + "." + ax.Name + ": " + ax.C.Src)
+	}
 }
